@@ -30,4 +30,5 @@ f93ab27 C12 base level over target, big L0 table from a first L0->L0 compaction 
 c46bcff C29 crash inside DropAll after the memtable WALs were removed and before the tables were dropped
 551bbf3 C29 the last level emptied by DropPrefix (or shrunk by compacted deletes, or BaseLevelSize enlarged on re-open) while the level above holds a key, then a delete of that key and an L0 compaction
 890f37e C29 an iterator opened before DropPrefix is still open when the process crashes after the drop returned
+e08cfb2 C26 PrepareIncremental on a database with tables in level 0 and compactors configured
 L
